@@ -90,15 +90,36 @@ def _slices(n, rows_per_chunk, lo=1, hi=None):
 def run(ctx):
     violations = []
     notes = []
-    par = ctx.pick(4, 12)
+    par = ctx.pick(6, 12)
 
-    # ---- 1. design: laws on the reference
-    mc = rt.laws(ctx, "DebVersion", "DebVersion_mc.cfg", env={"VERIF_MAXLEN": "2"}, min_states=n_strings(2))
-    ctx.log("laws on reference: %d strings, ok (%.0fs)" % (mc.distinct, mc.wall))
+    binary = rt.build(ctx)
 
-    # ---- 2. T->I tables
+    # ---- I->T inputs first (cheap): seeded random pairs beyond the bound, recorded from the real code
+    obsdir = ctx.subdir("obs")
+    allobs = os.path.join(obsdir, "all.ndjson")
+    nrand = ctx.pick(4000, 120000)
+    rt.drive(ctx, binary, "TestVerifC33Random", allobs, env={"VERIF_N": nrand})
+    chunks, nobs = rt.split_ndjson(allobs, ctx.pick(2, 12), obsdir)
+    obs = {o["case"]: o for o in common.read_ndjson(allobs)}
+    # negative control of the I->T binding, riding in the first chunk: case 0 = case 1 with a corrupted
+    # result (must be rejected and named); cases -1..-k = the consumer pairs with their hard-coded Debian
+    # order (must be accepted: validates the constants used in step 6)
+    corrupt = dict(obs[1])
+    corrupt["case"] = 0
+    corrupt["res"] = {-1: 0, 0: 1, 1: 0, 2: 0}[obs[1]["res"]]
+    extra = [corrupt] + [{"case": -(i + 1), "a": [ord(c) for c in a], "b": [ord(c) for c in b], "res": r}
+                         for i, (a, b, r) in enumerate(CONSUMER_PAIRS)]
+    with open(chunks[0], "a") as f:
+        for e in extra:
+            f.write(json.dumps(e) + "\n")
+
+    def val(i, p):
+        return lambda: rt.validate_obs(ctx, "TraceDebVersion", "TraceDebVersion.cfg", p,
+                                       os.path.join(obsdir, "verdict_%02d.json" % i), name="obs_%02d" % i, timeout=2400)
+
+    # ---- T->I tables
     tabdir = ctx.subdir("tables")
-    jobs = []
+    tjobs = []
     tables = []
 
     def mk(maxlen, lo, hi, tag):
@@ -106,34 +127,34 @@ def run(ctx):
         tables.append(out)
         return lambda: rt.table(ctx, "DebVersionTable", "DebVersionTable.cfg", out,
                                 {"VERIF_MAXLEN": maxlen, "VERIF_LO": lo, "VERIF_HI": hi},
-                                name="tab_%s_%d" % (tag, lo), timeout=1500)
+                                name="tab_%s_%d" % (tag, lo), timeout=2400)
 
+    n3, n4 = n_strings(3), n_strings(4)
     if ctx.quick:
-        n3 = n_strings(3)
-        for lo, hi in _slices(n3, 205):
-            jobs.append(mk(3, lo, hi, "l3"))
+        for lo, hi in _slices(n3, 410):
+            tjobs.append(mk(3, lo, hi, "l3"))
         # a seeded slice of rows of the length<=4 matrix (each row = all 7381 partners)
-        n4 = n_strings(4)
         width = 48
         start = n3 + 1 + (ctx.seed * 7919) % (n4 - n3 - width)
-        jobs.append(mk(4, start, start + width - 1, "l4"))
+        tjobs.append(mk(4, start, start + width - 1, "l4"))
         table_desc = "all pairs of length<=3 (820^2) + rows %d..%d of the length<=4 matrix (x7381)" % (start, start + width - 1)
     else:
-        n4 = n_strings(4)
         for lo, hi in _slices(n4, 250):
-            jobs.append(mk(4, lo, hi, "l4"))
+            tjobs.append(mk(4, lo, hi, "l4"))
         table_desc = "all pairs of length<=4 (7381^2)"
-    # canary table (length <= 1) used for the corrupted-entry negative control
-    canary = os.path.join(tabdir, "canary.json")
-    jobs.append(lambda: rt.table(ctx, "DebVersionTable", "DebVersionTable.cfg", canary,
-                                 {"VERIF_MAXLEN": 1, "VERIF_LO": 1, "VERIF_HI": 10}, name="tab_canary"))
-    binary_job = lambda: rt.build(ctx)
-    res = rt.parallel([binary_job] + jobs, par + 1)
-    binary = res[0]
-    tlc_wall = sum(r.wall for r in res[1:])
-    ctx.log("tabulated %s in %d TLC runs (%.0fs JVM time)" % (table_desc, len(jobs), tlc_wall))
 
-    # ---- 3. real code on the whole tabulated domain
+    # ---- design (laws on the reference), tables and observation validation: all TLC, side by side
+    ljob = lambda: rt.laws(ctx, "DebVersion", "DebVersion_mc.cfg", env={"VERIF_MAXLEN": "2"}, min_states=n_strings(2),
+                           timeout=2400, workers=2)
+    vjobs = [val(i, p) for i, p in enumerate(chunks)]
+    res = rt.parallel([ljob] + vjobs + tjobs, par)
+    mc = res[0]
+    vres = res[1:1 + len(vjobs)]
+    tres = res[1 + len(vjobs):]
+    ctx.log("TLC: laws on the reference hold on %d strings (%.0fs); %d table runs (%s; %.0fs JVM time); %d observation runs"
+            % (mc.distinct, mc.wall, len(tjobs), table_desc, sum(r.wall for r in tres), len(vjobs)))
+
+    # ---- real code on the whole tabulated domain
     outdir = ctx.subdir("real")
     ndrv = ctx.pick(1, 6)
     groups = [tables[i::ndrv] for i in range(ndrv)]
@@ -142,7 +163,7 @@ def run(ctx):
     def drv(i, g):
         return lambda: rt.drive(ctx, binary, "TestVerifC33Table", os.path.join(outdir, "table_%d.ndjson" % i),
                                 env={"VERIF_TABLES": ",".join(g), "VERIF_MAX_MISMATCH": ctx.pick(20000, 4000)},
-                                timeout=1500)
+                                timeout=2400)
     rows = []
     evals = nontrivial = in_scope = mism_in = mism_out = 0
     hist = {"lt": 0, "eq": 0, "gt": 0, "err": 0}
@@ -179,9 +200,10 @@ def run(ctx):
     ctx.log("real VersionCompare on %d pairs: %d in-scope differences %s, %d outside the statement's scope"
             % (evals, mism_in, classes, mism_out))
 
-    # negative control of the T->I binding: corrupt one entry of the canary table, the driver must name it
-    with open(canary) as f:
+    # negative control of the T->I binding: corrupt one entry of (a copy of) the first table, the driver must name it
+    with open(tables[0]) as f:
         ct = json.load(f)
+    assert ct["lo"] == 1
     ct["rows"][3][4] = {-1: 1, 0: 1, 1: -1, 2: 0}[ct["rows"][3][4]]      # pair ("a","b")
     bad_canary = os.path.join(tabdir, "canary_corrupt.json")
     with open(bad_canary, "w") as f:
@@ -191,9 +213,9 @@ def run(ctx):
     if len(cm) != 1:
         raise InfraError("binding canary: a corrupted table entry for (\"a\",\"b\") was not reported by the driver")
 
-    # ---- 4. laws directly on the real outputs
+    # ---- laws directly on the real outputs
     lrows = rt.drive(ctx, binary, "TestVerifC33Laws", os.path.join(outdir, "laws.ndjson"),
-                     env={"VERIF_LAWLEN": ctx.pick(2, 3), "VERIF_NRAND": ctx.pick(150, 400)}, timeout=1500)
+                     env={"VERIF_LAWLEN": ctx.pick(2, 3), "VERIF_NRAND": ctx.pick(150, 400)}, timeout=2400)
     lst = rt.stats_of(lrows)
     for r in lrows:
         if r.get("kind") == "law":
@@ -202,34 +224,19 @@ def run(ctx):
     ctx.log("laws on real outputs: %d strings, %d pairs, %d triples, %d violations"
             % (lst["strings"], lst["pairs"], lst["triples"], lst["law_violations"]))
 
-    # ---- 5. I->T: seeded random pairs beyond the bound
-    obsdir = ctx.subdir("obs")
-    allobs = os.path.join(obsdir, "all.ndjson")
-    nrand = ctx.pick(4000, 120000)
-    rt.drive(ctx, binary, "TestVerifC33Random", allobs, env={"VERIF_N": nrand})
-    chunks, nobs = rt.split_ndjson(allobs, ctx.pick(4, 24), obsdir)
-    obs = {o["case"]: o for o in common.read_ndjson(allobs)}
-
-    def val(i, p):
-        return lambda: rt.validate_obs(ctx, "TraceDebVersion", "TraceDebVersion.cfg", p,
-                                       os.path.join(obsdir, "verdict_%02d.json" % i), name="obs_%02d" % i, timeout=1500)
-    # negative control of the I->T binding: one corrupted observation must be rejected, and named
-    first = obs[1]
-    corrupt = dict(first)
-    corrupt["res"] = {-1: 0, 0: 1, 1: 0, 2: 0}[first["res"]]
-    cpath = os.path.join(obsdir, "corrupt.ndjson")
-    common.write_ndjson(cpath, [corrupt] + [obs[i] for i in range(2, 12)])
-    cjob = lambda: rt.validate_obs(ctx, "TraceDebVersion", "TraceDebVersion.cfg", cpath,
-                                   os.path.join(obsdir, "verdict_corrupt.json"), name="obs_corrupt")
-    vres = rt.parallel([cjob] + [val(i, p) for i, p in enumerate(chunks)], par)
-    cv, _ = vres[0]
-    if 1 not in [b["case"] for b in cv["bad"]]:
-        raise InfraError("binding canary: a corrupted observation (case 1) was accepted by TraceDebVersion")
+    # ---- I->T verdicts
     checked = 0
     rand_bad = rand_out = 0
-    for v, _ok in vres[1:]:
+    canary_seen = False
+    for v, _ok in vres:
         checked += v["checked"]
         for b in v["bad"]:
+            if b["case"] == 0:
+                canary_seen = True
+                continue
+            if b["case"] < 0:
+                raise InfraError("hard-coded Debian order of consumer pair %s disagrees with DebVersion!Ref (%s)"
+                                 % (CONSUMER_PAIRS[-b["case"] - 1], b))
             o = obs[b["case"]]
             scope = (b["va"] and b["vb"]) or b["exp"] == 2 or b["got"] == 2
             if b["va"] != o["va"] or b["vb"] != o["vb"]:
@@ -243,11 +250,14 @@ def run(ctx):
                 desc="strutil.VersionCompare(%s,%s) = %s but Debian version ordering gives %s (random case %d, seed %d)"
                      % (rt.q(o["sa"]), rt.q(o["sb"]), _show(b["got"]), _show(b["exp"]), b["case"], ctx.seed),
                 replay={"call": "strutil.VersionCompare", "a": o["sa"], "b": o["sb"], "real": b["got"], "reference": b["exp"]}))
+    if not canary_seen:
+        raise InfraError("binding canary: a corrupted observation (case 0) was accepted by TraceDebVersion")
+    checked -= len(extra)
     if checked != nobs or nobs != nrand:
         raise InfraError("I->T: %d observations recorded, %d written, %d validated" % (nrand, nobs, checked))
     ctx.log("I->T: %d random observations validated by TLC, %d in-scope differences, %d outside scope" % (checked, rand_bad, rand_out))
 
-    # ---- 6. consumers: sign convention
+    # ---- consumers: sign convention
     cons = _consumers(ctx, violations)
 
     samples = []
@@ -287,7 +297,7 @@ def run(ctx):
         "tlc_law_states": mc.distinct,
         "tlc_law_domain": "strings of length<=2 over %s (%d), all triples" % (ALPHABET, n_strings(2)),
         "tlc_constants": {"Alphabet": ALPHABET, "MaxLen_laws": 2, "MaxLen_table": ctx.pick(3, 4)},
-        "tlc_table_runs": len(jobs),
+        "tlc_table_runs": len(tjobs),
         "consumers": cons,
         "binding_canaries": "corrupted table entry and corrupted observation both rejected",
     }
@@ -320,14 +330,7 @@ def _consumers(ctx, violations):
     spec = os.path.join(d, "pairs.json")
     with open(spec, "w") as f:
         json.dump([{"a": a, "b": b} for a, b, _ in CONSUMER_PAIRS], f)
-    # the hard-coded orders above are themselves validated against the reference by TLC
-    obs = os.path.join(d, "pairs_obs.ndjson")
-    common.write_ndjson(obs, [{"case": i + 1, "a": [ord(c) for c in a], "b": [ord(c) for c in b], "res": r}
-                              for i, (a, b, r) in enumerate(CONSUMER_PAIRS)])
-    v, ok = rt.validate_obs(ctx, "TraceDebVersion", "TraceDebVersion.cfg", obs, os.path.join(d, "pairs_verdict.json"),
-                            name="obs_consumer_pairs")
-    if not ok or v["checked"] != len(CONSUMER_PAIRS):
-        raise InfraError("hard-coded orders of the consumer pairs disagree with DebVersion!Ref: %s" % v["bad"])
+    # (the hard-coded orders are validated against DebVersion!Ref by TLC: cases -1..-k of observation chunk 0)
     ref = {(a, b): r for a, b, r in CONSUMER_PAIRS}
     tool = os.path.join(common.HARNESS, "overlay", "snapdtool", "zz_verif_c33_test.go")
     b = goharness.overlay_test_build(ctx, "snapdtool", [tool])
